@@ -20,7 +20,78 @@ import (
 )
 
 // rfile is one CodeGeneratorResponse.File; plug one plugin's (out, response).
-type rfile struct{ name, ip, content string }
+//
+// name, insertion_point and content are proto2 optional strings: besides their VALUE the wire
+// carries whether the field is PRESENT.  The zero value of the three flags is what protogen-style
+// plugins send (name and content present, insertion_point present iff non-empty):
+//
+//	noName    : the name field is absent (name must be "")
+//	ipSet     : insertion_point is present although it is empty (ip must be "")
+//	noContent : the content field is absent (content must be "")
+type rfile struct {
+	name, ip, content        string
+	noName, ipSet, noContent bool
+}
+
+func encOpt(v string, absent bool) string {
+	if absent {
+		return "~"
+	}
+	return hx.Enc(v)
+}
+
+func decOpt(s string) (string, bool) {
+	if s == "~" {
+		return "", true
+	}
+	return hx.Dec(s), false
+}
+
+func (f rfile) ipAbsent() bool { return f.ip == "" && !f.ipSet }
+
+func (f rfile) encode() string {
+	return encOpt(f.name, f.noName) + ":" + encOpt(f.ip, f.ipAbsent()) + ":" + encOpt(f.content, f.noContent)
+}
+
+func parseRFile(fe string) (rfile, error) {
+	x := strings.Split(fe, ":")
+	if len(x) != 3 {
+		return rfile{}, errors.New("bad file entry")
+	}
+	f := rfile{}
+	f.name, f.noName = decOpt(x[0])
+	var ipAbs bool
+	f.ip, ipAbs = decOpt(x[1])
+	f.ipSet = f.ip == "" && !ipAbs
+	f.content, f.noContent = decOpt(x[2])
+	return f, nil
+}
+
+// describe one file for failure reports, presence included.
+func (f rfile) String() string {
+	show := func(v string, absent bool) string {
+		if absent {
+			return "<absent>"
+		}
+		return fmt.Sprintf("%q", v)
+	}
+	return fmt.Sprintf("name=%s insertion_point=%s content=%s", show(f.name, f.noName), show(f.ip, f.ipAbsent()), show(f.content, f.noContent))
+}
+
+// toFile builds the message with exactly the presence the rfile describes.
+func (f rfile) toFile() *pluginpb.CodeGeneratorResponse_File {
+	rf := &pluginpb.CodeGeneratorResponse_File{}
+	if !f.noName {
+		rf.Name = proto.String(f.name)
+	}
+	if !f.ipAbsent() {
+		rf.InsertionPoint = proto.String(f.ip)
+	}
+	if !f.noContent {
+		rf.Content = proto.String(f.content)
+	}
+	return rf
+}
 type plug struct {
 	out   string
 	files []rfile
@@ -41,7 +112,7 @@ func encPlugs(ps []plug) string {
 		if len(p.files) > 0 {
 			es := make([]string, len(p.files))
 			for j, f := range p.files {
-				es[j] = hx.Enc(f.name) + ":" + hx.Enc(f.ip) + ":" + hx.Enc(f.content)
+				es[j] = f.encode()
 			}
 			fs = strings.Join(es, ",")
 		}
@@ -164,11 +235,11 @@ func parseRespLine(fields []string) (respCase, error) {
 		p := plug{out: hx.Dec(h[0])}
 		if h[1] != "-" {
 			for _, fe := range strings.Split(h[1], ",") {
-				x := strings.Split(fe, ":")
-				if len(x) != 3 {
-					return c, errors.New("bad file entry")
+				f, err := parseRFile(fe)
+				if err != nil {
+					return c, err
 				}
-				p.files = append(p.files, rfile{hx.Dec(x[0]), hx.Dec(x[1]), hx.Dec(x[2])})
+				p.files = append(p.files, f)
 			}
 		}
 		c.plugs = append(c.plugs, p)
@@ -216,6 +287,67 @@ func resetTree(root string) {
 			panic(err)
 		}
 	}
+}
+
+// The scratch tree is reset only when the previous case left something behind (a file written, a
+// directory created): most failing runs write nothing, and resetting + walking the tree twice per
+// case is what the harness spends its time on.
+var (
+	treeRoot     string
+	treeClean    bool
+	pristine     map[string]string
+	pristineDirs string
+)
+
+// cleanTree puts the scratch tree into its initial state and returns the snapshot of that state.
+func cleanTree(root string) map[string]string {
+	if !treeClean || treeRoot != root || pristine == nil {
+		resetTree(root)
+		pristine, pristineDirs = snapshotDirs(root)
+		treeRoot, treeClean = root, true
+	}
+	return pristine
+}
+
+// afterRun snapshots the tree after a case and notes whether it is still in its initial state.
+func afterRun(root string) map[string]string {
+	files, dirs := snapshotDirs(root)
+	treeClean = treeRoot == root && dirs == pristineDirs && len(files) == len(pristine)
+	if treeClean {
+		for p, v := range files {
+			if pv, ok := pristine[p]; !ok || pv != v {
+				treeClean = false
+				break
+			}
+		}
+	}
+	return files
+}
+
+func snapshotDirs(root string) (map[string]string, string) {
+	out := map[string]string{}
+	var dirs []string
+	err := filepath.WalkDir(root, func(p string, d fs.DirEntry, err error) error {
+		if err != nil {
+			return err
+		}
+		if d.Type().IsRegular() {
+			b, err := os.ReadFile(p)
+			if err != nil {
+				return err
+			}
+			out[p] = string(b)
+		} else if d.IsDir() {
+			dirs = append(dirs, p)
+		} else {
+			out[p] = "<" + d.Type().String() + ">"
+		}
+		return nil
+	})
+	if err != nil {
+		panic(err)
+	}
+	return out, strings.Join(dirs, "\x00")
 }
 
 func snapshot(root string) map[string]string {
@@ -345,6 +477,17 @@ func genRespCase(r *hx.Rand, cwd string) respCase {
 				}
 				produced[key] = append(produced[key], f)
 			}
+			// presence: what a protogen-style plugin never sends - insertion_point present but
+			// empty, content absent, name absent
+			if f.ip == "" && r.Chance(1, 4) {
+				f.ipSet = true
+			}
+			if r.Chance(1, 12) {
+				f.content, f.noContent = "", true
+			}
+			if r.Chance(1, 25) {
+				f.name, f.noName = "", true
+			}
 			p.files = append(p.files, f)
 		}
 		c.plugs = append(c.plugs, p)
@@ -383,11 +526,7 @@ func classify(err error) string {
 func toResponse(p plug) *pluginpb.CodeGeneratorResponse {
 	resp := &pluginpb.CodeGeneratorResponse{}
 	for _, f := range p.files {
-		rf := &pluginpb.CodeGeneratorResponse_File{Name: proto.String(f.name), Content: proto.String(f.content)}
-		if f.ip != "" {
-			rf.InsertionPoint = proto.String(f.ip)
-		}
-		resp.File = append(resp.File, rf)
+		resp.File = append(resp.File, f.toFile())
 	}
 	return resp
 }
@@ -423,7 +562,7 @@ func runResponseCase(run *hx.Run, c respCase, line string) (out string) {
 		var ps []string
 		for i, p := range c.plugs {
 			for _, f := range p.files {
-				ps = append(ps, fmt.Sprintf("plugin%d out=%q name=%q insertion_point=%q content=%q", i, p.out, f.name, f.ip, f.content))
+				ps = append(ps, fmt.Sprintf("plugin%d out=%q %s", i, p.out, f))
 			}
 		}
 		in["files"] = ps
@@ -436,8 +575,7 @@ func runResponseCase(run *hx.Run, c respCase, line string) (out string) {
 	if err := os.Chdir(c.cwd); err != nil {
 		panic(err)
 	}
-	resetTree(root)
-	before := snapshot(root)
+	before := cleanTree(root)
 	var err error
 	func() {
 		defer func() {
@@ -448,9 +586,10 @@ func runResponseCase(run *hx.Run, c respCase, line string) (out string) {
 		}()
 		err = applyLikeGenerateCode(c.plugs)
 	}()
-	after := snapshot(root)
+	after := afterRun(root)
 
 	changed := oracleDisk(c, err, before, after, fail, false)
+	oraclePlainRun(c, err, before, fail)
 
 	// ---- canonical output
 	if err != nil {
@@ -658,6 +797,41 @@ func oracleDisk(c respCase, err error, before, after map[string]string, fail fun
 			}
 		}
 	}
+	// output bytes: a path that received exactly one plain file and no insertion holds exactly that
+	// file's content; an insertion point applies only to a file that holds its marker
+	if err == nil {
+		type hist struct {
+			plain, ins   int
+			content, all string
+		}
+		h := map[string]*hist{}
+		for i, p := range c.plugs {
+			for _, f := range p.files {
+				target := filepath.Join(absOuts[i], f.name)
+				e := h[target]
+				if e == nil {
+					e = &hist{}
+					h[target] = e
+				}
+				if f.ip == "" {
+					e.plain++
+					e.content = f.content
+				} else {
+					e.ins++
+					if !strings.Contains(e.all, "@@protoc_insertion_point("+f.ip+")") {
+						fail("C17-insertion-without-marker", fmt.Sprintf("insertion point %q into %s succeeded although nothing written to that file so far holds the marker @@protoc_insertion_point(%s)", f.ip, target, f.ip))
+					}
+				}
+				e.all += f.content + "\n"
+			}
+		}
+		for _, target := range sortedKeys(h) {
+			e := h[target]
+			if v, ok := vafter[target]; ok && e.plain == 1 && e.ins == 0 && v != e.content {
+				fail("C17-content-mismatch", fmt.Sprintf("%s was returned once, as a plain file with content %q, and holds %q after the run", target, e.content, v))
+			}
+		}
+	}
 	for p := range preexisting {
 		full := filepath.Join(root, filepath.FromSlash(p))
 		if _, ok := produced[full]; !ok && after[full] != before[full] {
@@ -666,6 +840,51 @@ func oracleDisk(c respCase, err error, before, after map[string]string, fail fun
 	}
 
 	return changed
+}
+
+// oraclePlainRun: a run in which every returned file is a PLAIN file (no non-empty insertion
+// point - an insertion_point that is present but empty is none), every name is an ordinary relative
+// path, no two files go to the same place, nothing is in the way on disk and every out is a
+// directory has no reason to fail: each file is generated exactly once.
+func oraclePlainRun(c respCase, err error, before map[string]string, fail func(class, what string)) {
+	if err == nil || hasArchive(c) {
+		return
+	}
+	targets := map[string]bool{}
+	for _, p := range c.plugs {
+		o := absOutOf(c.cwd, p.out)
+		for _, f := range p.files {
+			if f.ip != "" || f.name == "" || strings.HasPrefix(f.name, "/") {
+				return
+			}
+			for _, comp := range strings.Split(f.name, "/") {
+				if comp == "" || comp == "." || comp == ".." {
+					return
+				}
+			}
+			t := filepath.Join(o, f.name)
+			if targets[t] {
+				return
+			}
+			targets[t] = true
+		}
+	}
+	for t := range targets {
+		for d := filepath.Dir(t); d != "/" && d != "."; d = filepath.Dir(d) {
+			if _, isFile := before[d]; isFile || targets[d] {
+				return // a file where a directory is needed
+			}
+		}
+		for q := range before {
+			if strings.HasPrefix(q, t+"/") {
+				return // a directory where the file is to go
+			}
+		}
+	}
+	if len(targets) == 0 {
+		return
+	}
+	fail("C17-plain-run-failed", "every returned file is a plain file with an ordinary name and its own output path, yet the run failed: "+err.Error())
 }
 
 func sectionB(run *hx.Run, r *hx.Rand) {
@@ -683,7 +902,7 @@ func sectionB(run *hx.Run, r *hx.Rand) {
 	for i := 0; i < n; i++ {
 		c := genRespCase(r.Fork(uint64(i)), cwd)
 		if hasArchive(c) {
-			resetTree(root)
+			cleanTree(root)
 			c.fs = statFS(c)
 			run.Count("B:with-archive-out")
 		}
